@@ -307,6 +307,8 @@ def run(ctx):
     ctx.assume("'lookup returns the devices that actually have those values' for arbitrary add sequences is data dependent: declined")
     repo = Repo()
     rule_registry(ctx, repo)
+    from rules import c19_atomic
+    c19_atomic.run_rule(ctx, repo)
     rule_backref(ctx, repo)
     rule_find_or_add(ctx, repo)
     rule_link_errors(ctx, repo)
